@@ -182,6 +182,70 @@ class Live:
         return ok
 
 
+class _ProcEnded:
+    def __init__(self, proc) -> None:
+        self.proc = proc
+
+    def is_set(self) -> bool:
+        return self.proc.poll() is not None
+
+    def wait(self, timeout: float) -> bool:
+        try:
+            self.proc.wait(timeout)
+            return True
+        except Exception:  # noqa: BLE001 - subprocess.TimeoutExpired
+            return False
+
+
+class ProcLive(Live):
+    """Same raw peer, but the serve loop runs in a child process behind the shipped stdio entry point (serve_stdio);
+    `died` = the process was killed by a signal or exited with a non-zero status."""
+
+    def __init__(self, world_name: str) -> None:  # noqa: D107 - deliberately not calling Live.__init__
+        import subprocess
+        import sys
+
+        self.kind = "pipe"
+        self.proc = subprocess.Popen([sys.executable, "-m", "drivers._wire2_worker", world_name],
+                                     stdin=subprocess.PIPE, stdout=subprocess.PIPE, stderr=subprocess.DEVNULL, bufsize=0)
+        self.buf = bytearray()
+        self.eof = False
+        self.reset = False
+        self._wfd = self.proc.stdin.fileno()
+        self._rfd = self.proc.stdout.fileno()
+        self._wclosed = False
+        self.ended = _ProcEnded(self.proc)
+
+    @property
+    def died(self) -> list[str]:
+        rc = self.proc.poll()
+        if rc is None or rc == 0:
+            return []
+        return [f"signal-{-rc}: server process killed" if rc < 0 else f"exit-{rc}: server process exited abnormally"]
+
+    def close_write(self) -> None:
+        if not self._wclosed:
+            self._wclosed = True
+            try:
+                self.proc.stdin.close()
+            except OSError:
+                pass
+
+    def shutdown(self, timeout: float = 3.0) -> bool:
+        self.close_write()
+        ok = self.ended.wait(timeout)
+        if ok:
+            while self._pump(0.0):
+                pass
+        else:
+            self.proc.kill()
+        try:
+            self.proc.stdout.close()
+        except OSError:
+            pass
+        return ok
+
+
 def pairs() -> dict:
     from vgi_rpc.rpc import make_pipe_pair, make_unix_pair
 
